@@ -198,3 +198,31 @@ def ct_multiframe(zs, rows, cols, orientation=(1, 0, 0, 0, 1, 0), spacing=(1.0, 
     ds.PerFrameFunctionalGroupsSequence = pf
     ds.PixelData = np.zeros((len(zs), rows, cols), np.int16).tobytes()
     return ds
+
+
+def ct_image_at(positions, rows, cols, orientation, spacing, pixels, spacing_between_slices=None, single=False):
+    """A plain (non-segmentation) CT image with caller-chosen geometry and pixels, identity rescale:
+    one Enhanced-CT-like multi-frame instance with frame i at positions[i], or (single=True, one
+    position) a single-frame CT image.  Added for C03 (Image.get_volume / get_volume_geometry of
+    images that are not segmentations)."""
+    from pydicom.dataset import Dataset
+    px = np.asarray(pixels, np.int16).reshape(len(positions), rows, cols)
+    if single:
+        ds = ct_frame(positions[0], rows, cols, orientation, spacing, pixels=px[0])
+        ds.RescaleIntercept, ds.RescaleSlope = 0, 1
+        if spacing_between_slices is None:
+            if 'SpacingBetweenSlices' in ds:
+                del ds.SpacingBetweenSlices
+        else:
+            ds.SpacingBetweenSlices = float(spacing_between_slices)
+        return ds
+    ds = ct_multiframe([0.0] * len(positions), rows, cols, orientation, spacing)
+    if 'SpacingBetweenSlices' in ds:
+        del ds.SpacingBetweenSlices
+    for it, p in zip(ds.PerFrameFunctionalGroupsSequence, positions):
+        it.PlanePositionSequence[0].ImagePositionPatient = [float(x) for x in p]
+    if spacing_between_slices is not None:
+        ds.SharedFunctionalGroupsSequence[0].PixelMeasuresSequence[0].SpacingBetweenSlices = \
+            float(spacing_between_slices)
+    ds.PixelData = px.tobytes()
+    return ds
